@@ -626,7 +626,11 @@ fn gen_world(r: &mut Rng, out: &mut Out, edge: bool) -> World {
 		if scls != cname { out.stats.hit("unit:delegate-in-other-class"); }
 		let kind = *r.pick(&['v', 'v', 'v', 's', 't', 'i']);
 		let call = InsD::Inv(kind, scls.clone(), sname.clone(), ps.clone());
-		let code = match r.below(14) {
+		let code = match r.below(17) {
+			// constructor calls are invoked methods like any other: `new X(this.other())` invokes two distinct methods
+			14 => { out.stats.hit("body:constructor-plus-invoke"); Some(vec![InsD::Inv('s', r.pick(&[scls.as_str(), "ext/Other", "java/lang/Object"]).to_string(), "<init>".to_owned(), r.pick(&["()V", "(I)V"]).to_string()), call.clone()]) }
+			15 => { out.stats.hit("body:invoke-plus-constructor"); Some(vec![call.clone(), InsD::Other, InsD::Inv('s', scls.clone(), "<init>".to_owned(), ps.clone())]) }
+			16 => { out.stats.hit("body:constructor-only"); Some(vec![InsD::Inv('s', scls.clone(), "<init>".to_owned(), ps.clone())]) }
 			0 => { out.stats.hit("body:no-code"); None }
 			1 => { out.stats.hit("body:no-invoke"); Some(vec![InsD::Other, InsD::Other]) }
 			2 => { out.stats.hit("body:two-distinct-invokes"); Some(vec![call.clone(), InsD::Inv('v', scls.clone(), format!("{sname}2"), ps.clone())]) }
